@@ -417,6 +417,26 @@ def readout_data_histories():
                    "shape": f"readoutdata:{mid[0][0] if mid else 'none'}"}
 
 
+def readout_order_histories():
+    """readouts in dependency order (since `fix: readouts are evaluated in dependency order`): a readout naming a
+    LATER-declared readout, one naming an unknown name (MissingDependenciesError), a cycle (CircularDependencyError),
+    and the repair of each by a removal; all readout-carrying getters"""
+    fl = [False] + [True] * 8
+    qs = [["q", "argsro", ["2", "3", "1"], "1"], ["q", "argsf", None, "0", fl], ["q", "argstc", ROWS, fl],
+          ["q", "args", None, "0"], ["q", "rhs", None, "0"]]
+    bodies = {
+        "later": [["add_readout", "ra", fn(["rb", "x"], ["+", A(0), A(1)])], ["add_readout", "rb", fn(["ro", "dd"], ["*", A(0), A(1)])]],
+        "unknown": [["add_readout", "ra", fn(["nope"], A(0))]],
+        "cycle": [["add_readout", "ra", fn(["rb"], A(0))], ["add_readout", "rb", fn(["ra"], A(0))]],
+        "self": [["add_readout", "ra", fn(["ra"], A(0))]],
+    }
+    for name, body in bodies.items():
+        for q in (None, QUERIES[0]):
+            ops = body[:1] + ([q] if q else []) + body[1:] + qs + [["remove_readout", "ra"]] + qs[:3]
+            yield {"ops": BASE + ops + BATTERY[-2:], "check_from": len(BASE), "stratum": "readoutorder",
+                   "shape": "readoutorder:" + name}
+
+
 def copy_histories():
     """deep copy / pickle round trip of a model with and without a filled cache, then an edit of the copy and queries:
     the copy answers like a fresh model with ITS content, the original keeps its own, `==` ignores the cache"""
